@@ -1192,8 +1192,6 @@ def search_C04(rng, deadline, broken):
         o, d, z = _sun_inputs(rng)
         if isinstance(o.elevation, tuple) or abs(o.latitude) > 89.8:
             continue
-        if isinstance(o.elevation, float) and o.elevation > 0 and abs(o.latitude) > 85:
-            continue                           # N3 (known finding): elevated polar observers
         fn = rng.choice(["dawn_dusk", "rise_set"])
         dep = rng.choice([6.0, 12.0, 18.0, rng.uniform(0.3, 25)])
         rising = rng.random() < 0.5
